@@ -632,35 +632,37 @@ class Expander:
 
             RAISES = ("raises",)
 
-            def seq(body) -> Term | None:
+            def seq(body, cont) -> Term:
+                """Value returned when ``body`` is executed and followed by ``cont()``."""
                 for i, st in enumerate(body):
                     if isinstance(st, ast.Return):
                         return self.expr(st.value, f, node_for(st), {}, 0) if st.value is not None else NONE
                     if isinstance(st, ast.Raise):
                         return RAISES
                     if isinstance(st, ast.If):
-                        a = seq(st.body)
-                        b = seq(st.orelse)
-                        if a is None and b is None:
-                            continue
-                        rest = seq(body[i + 1:])
-                        if a is None:
-                            a = rest
-                        if b is None:
-                            b = rest
-                        if a is None or b is None:
-                            a = a if a is not None else NONE
-                            b = b if b is not None else NONE
+                        rest_memo: list = []
+
+                        def rest(i=i, body=body, cont=cont, rest_memo=rest_memo):
+                            if not rest_memo:
+                                rest_memo.append(seq(body[i + 1:], cont))
+                            return rest_memo[0]
+
+                        if not any(isinstance(x, (ast.Return, ast.Raise)) for b_ in (st.body, st.orelse) for s_ in b_ for x in ast.walk(s_)):
+                            continue  # neither branch leaves the function: the value comes from what follows
+                        a = seq(st.body, rest)
+                        b = seq(st.orelse, rest)
                         # a branch that raises contributes no value
                         if a == RAISES:
                             return b
                         if b == RAISES:
                             return a
+                        if a == b:
+                            return a
                         return ("ifexp", self.expr(st.test, f, node_for(st), {}, 0), a, b)
-                return None
+                return cont()
 
-            t = seq(f.node.body)
-            if t is None or t == RAISES:
+            t = seq(f.node.body, lambda: NONE)
+            if t == RAISES:
                 t = NONE
         finally:
             self._active.discard(key)
